@@ -7,6 +7,15 @@ NOTES = ("exit 0 = every obligation generated from /repo's working tree discharg
          "timeout) - never an alarm. See DESIGN.md.")
 
 CHECKS = {
+    "C11": {
+        "text": "Proof, unbounded (Verus on the verbatim ClientTicks / MutateIndex code): ack_mutate_message against the oracle `acked_tick` with a whole-view postcondition "
+                "(unknown index changes nothing; a known one is consumed once; each named entity's tick moves forward only and never past the message's tick; nothing else changes), "
+                "exact map updates of set_mutation_tick/remove_entity, index counter wraps at 2^16; plus the emptiness test that decides whether a mutate message is sent.",
+        "design_ref": "DESIGN.md §4 U4, U5, U7, §5 C11",
+        "note": "Assumed: hashbrown map semantics, Tick::is_newer_than formula (validated by Kani against bevy). One stated mechanical normalisation (let-else-continue -> if-let) because Verus for-loops do not support continue. "
+                "Not covered: change detection in collect_changes, time-based cleanup (retain closure), register_mutate_message, the client acknowledging every message.",
+        "technique": "contract-based deductive verification: Verus requires/ensures/loop invariants woven onto verbatim-extracted functions; Kani contract harnesses for the integer-level parts",
+    },
     "C08": {
         "text": "Proof, unbounded (Verus on the verbatim ClientVisibility impl): representation invariant + whole-view postconditions of every operation against the two oracles "
                 "cur (latest setting) and held (what the client holds): is_visible/state report the latest setting, an unheld entity is never classified plain Visible, "
@@ -52,7 +61,6 @@ NOT_APPLICABLE = {
     "C07": "Holds by absence of components on the client entity and by query filters in send_replication/send_all; there is no function whose contract states it.",
     "C09": "Mechanisms are Bevy systems gated by run conditions and message purges using retain closures / generic Into (not extractable for Verus, Kani timeout). Reachable container resets are proved under C03/C12 but do not amount to the property.",
     "C10": PLANNED,
-    "C11": PLANNED,
     "C13": PLANNED,
     "C14": "Distinctness of hashes is not a theorem (FNV-1a collides); determinism rests on any::type_name (compiler intrinsic) and a derived Hash; the authorizing comparison is a Bevy observer.",
     "C16": "Mechanisms are collect_mappings (Query), Updates::send (out of reach) and apply_entity_mapping (World). The only reachable fact (ServerEntityMap::insert then server_entry is Occupied) is proved under C03.",
